@@ -154,6 +154,13 @@ def gen_client_plan(rng, prof=None):
             tb = t0 + ticks(rng, 0.3, span)
             for _ in range(rng.choice([17, 18, 20, 33, 40])):
                 ops.append({'t': tb, 'op': 'send', 'data': cpay.next()})
+        if rng.random() < p.get('p_send_staggered', 0.2):
+            # sends a tick or two apart: each has its place in the order,
+            # and the write loop is still busy with the one before
+            tb = t0 + ticks(rng, 0.3, span)
+            for _ in range(rng.choice([3, 4, 6, 8])):
+                ops.append({'t': tb, 'op': 'send', 'data': cpay.next()})
+                tb += rng.choice([1, 1, 2, 3]) * TICK
         if rng.random() < p.get('p_client_disconnect', 0.5):
             ops.append({'t': t0 + ticks(rng, 0.05, span),
                         'op': 'disconnect',
